@@ -51,8 +51,8 @@ def programs(tier):
     for n in sizes:
         for sub in itertools.combinations(PLACES, n):
             if "d" in sub:
-                keys = ["default", "literal", "ctx", "arg"]
-                flags = ["", "bf"] if tier == "quick" else ["", "b", "f", "bf"]
+                keys = ["default", "literal", "ctx", "arg"] if (tier != "quick" or n == 1) else ["default", "ctx"]
+                flags = (["", "bf"] if n == 1 else [""]) if tier == "quick" else ["", "b", "f", "bf"]
             else:
                 keys = ["default"]
                 flags = [""]
@@ -199,6 +199,7 @@ class Model:
 
 
 _UNIQ = [0]
+_SKEL = {}
 
 
 class World:
@@ -217,6 +218,7 @@ class World:
         if cfg["backend"] == "rec":
             self.clock = seams.SimClock(1000.0)
             self.sm.set(codegen, "time", self.clock)
+            seams.install_compile_memo(self.sm, self.clock)
         else:
             self.clock = None
         prog = cfg["prog"]
@@ -362,12 +364,14 @@ class World:
     def skeleton(self, exp_body):
         """the newlines of the skeleton in front of the body text are literal output; they are taken from an
         uncached render of the same text (everything from 'B:' on comes from the model)"""
+        if self.uncached is None and self.text in _SKEL:
+            self.uncached = _SKEL[self.text]
         if self.uncached is None:
             from mako.template import Template
 
             t = Template(self.text.replace(' cached="True"', ""))
             o = t.render(tick=lambda n: "", **CONTEXTS["c1"])
-            self.uncached = o[: o.index("B:")]  # the literal newlines in front of the body text
+            self.uncached = _SKEL[self.text] = o[: o.index("B:")]  # the literal newlines in front of the body text
         return self.uncached + exp_body
 
     def check_backend_args(self, m, viols):
